@@ -6,12 +6,16 @@ import (
 	"bytes"
 	"context"
 	"encoding/binary"
+	"encoding/json"
 	"errors"
 	"fmt"
 	"io"
+	"os"
+	"path/filepath"
 	"sort"
 	"strings"
 	"sync"
+	"syscall"
 	"testing"
 	"time"
 
@@ -663,6 +667,76 @@ func TestVerifC11InProcess(t *testing.T) {
 			}(v, n)
 		}
 	}
+	// the same with a real OS process as the server (the --server command path): it answers the start request and then
+	// ignores the request to stop; the runner has to get rid of it and the batch has to end
+	wg.Add(1)
+	go func() {
+		defer wg.Done()
+		dir, err := os.MkdirTemp(".", "c11proc")
+		if err != nil {
+			return
+		}
+		dir, _ = filepath.Abs(dir)
+		defer os.RemoveAll(dir)
+		scriptFile, logFile := filepath.Join(dir, "server.json"), filepath.Join(dir, "peer.log")
+		data, _ := json.Marshal(vfServerScript{Fault: "ignore-term"})
+		_ = os.WriteFile(scriptFile, data, 0o644)
+		n := 2
+		var testCases []*conformancev1.TestCase
+		expected := map[string]*conformancev1.ClientResponseResult{}
+		for i := 0; i < n; i++ {
+			exp := &conformancev1.ClientResponseResult{Payloads: []*conformancev1.ConformancePayload{{Data: []byte(fmt.Sprintf("payload-%d", i))}}}
+			testCases = append(testCases, &conformancev1.TestCase{Request: &conformancev1.ClientCompatRequest{TestName: vfC11Name(i)}, ExpectedResponse: exp})
+			expected[vfC11Name(i)] = exp
+		}
+		results := newResults(n, &testTrie{}, &testTrie{}, nil)
+		client := &vfFakeClient{c: vfC11Case{N: n, Delivery: "sync"}, expected: expected}
+		done := make(chan struct{})
+		start := time.Now()
+		go func() {
+			defer close(done)
+			runTestCasesForServer(context.Background(), false, false, serverInstance{}, testCases, nil, nil, runCommand(vfPeerCommand("script-server", scriptFile, logFile)), &vfC11Printer{}, &vfC11Printer{}, results, client, nil, false)
+		}()
+		c := map[string]any{"batch": n, "server": "os-process-ignores-sigterm"}
+		var viol error
+		bound := 3*gracefulShutdownPeriod + 10*time.Second
+		select {
+		case <-done:
+		case <-time.After(bound):
+			viol = verifkit.Violf("os-process-server-hang", "batch against a server process that ignores SIGTERM did not end within %v", bound)
+		}
+		if viol == nil {
+			results.mu.Lock()
+			for i := 0; i < n; i++ {
+				o, ok := results.outcomes[vfC11Name(i)]
+				if !ok || o.setupError || o.actualFailure != nil {
+					viol = verifkit.Violf("os-process-outcome", "case %d was answered correctly but: outcome present=%v setupError=%v failure=%v (took %v)", i, ok, o.setupError, o.actualFailure, time.Since(start))
+				}
+			}
+			results.mu.Unlock()
+			// the server was asked to stop and, not reacting, has been killed
+			for _, ev := range vfReadPeerLog(logFile) {
+				if ev.Event != "server-start" {
+					continue
+				}
+				deadline := time.Now().Add(10 * time.Second)
+				for syscall.Kill(ev.Pid, 0) == nil {
+					if time.Now().After(deadline) {
+						viol = verifkit.Violf("os-process-server-survives", "server process %d is still alive 10s after the batch function returned", ev.Pid)
+						_ = syscall.Kill(ev.Pid, syscall.SIGKILL)
+						break
+					}
+					time.Sleep(20 * time.Millisecond)
+				}
+			}
+		}
+		mu.Lock()
+		en.Rec.Observe(c, []string{"os-process-ignores-sigterm"}, true)
+		if viol != nil {
+			en.Fail(c, viol)
+		}
+		mu.Unlock()
+	}()
 	wg.Wait()
 	en.Done(true)
 }
